@@ -51,6 +51,47 @@ def replay_add_many(ctx, cases, rng, count):
         done += 1
 
 
+def replay_add_many_model(ctx, rows, rng, count, label):
+    """spec -> code: behaviours of AddMany.tla (terms with signs, periodic roundings without the cap, final rounding
+    with the cap) replayed through teneva.add_many; result and ranks must be the model's when no decision sat on a tie
+    or on the budget's edge, and the accumulated error bound must hold whenever the final cap did not bind."""
+    order = rng.permutation(len(rows))[:count]
+    for j in order:
+        c = rows[j]
+        d, npre, ent = c['d'], c['npre'], c['ent']
+        n = [npre] * (d - 1) + [len(ent)]
+        terms = [F.delta_tt(n, list(ent[t[0] - 1]['pre']) + [t[0] - 1], t[1] * np.sqrt(ent[t[0] - 1]['en'])) for t in c['terms']]
+        e = float(np.sqrt(c['ep'][0] / c['ep'][1]))
+        cap = c['cap'] if c['cap'] != 99 else 1.E+12
+        sp = int(rng.choice([0, 0, 30, -30]))
+        if sp:
+            terms = [[G * (2.0 ** sp if k == 0 else 1.) for k, G in enumerate(t)] for t in terms]
+        Z = teneva.add_many(terms, e, cap, trunc_freq=c['fr'])
+        decisive = not (c['tie'] or c['edge'])
+        exact_sum = sum(F.dense(t_) for t_ in terms)
+        model = np.zeros(n)
+        for jj, cf in enumerate(c['coef']):
+            if cf:
+                model[tuple(list(ent[jj]['pre']) + [jj])] = cf * np.sqrt(ent[jj]['en']) * 2.0 ** sp
+        ctx.case(key=(label, c['ent'], c['terms'], c['fr'], c['cap'], c['ep']), nontrivial=c['err2'] > 0 or c['nrounds'] > 1,
+                 sample={'add_many': {k: c[k] for k in ('ent', 'terms', 'fr', 'cap', 'ep', 'coef', 'ranks')}} if j == order[0] else None)
+        if not F.is_wellformed(Z, n):
+            ctx.violation('add_many:shape', 'add_many returned a malformed tensor', case=c)
+            continue
+        rz = [int(G.shape[2]) for G in Z[:-1]]
+        scale = 2.0 ** sp * np.sqrt(max(1, c['sumN']))
+        if decisive:
+            ok = rz == c['ranks'] and np.abs(F.dense(Z) - model).max() <= 1e-9 * scale
+            ctx.check(ok, 'add_many:model', 'add_many(e^2=%s/%s, r=%s, trunc_freq=%s) on %d signed terms: ranks %s, specification %s; max deviation from the specified result %.3g'
+                      % (c['ep'][0], c['ep'][1], c['cap'], c['fr'], len(terms), rz, c['ranks'], np.abs(F.dense(Z) - model).max()), case=c)
+        else:
+            ok = all(1 <= a <= max(1, c['cap']) for a in rz)
+            if not c['capHit']:
+                err2 = float(np.sum((F.dense(Z) - exact_sum) ** 2)) / 4.0 ** sp
+                ok = ok and err2 * c['ep'][1] <= c['nrounds'] * c['ep'][0] * c['sumN'] * (1 + 1e-9) + 1e-9
+            ctx.check(ok, 'add_many:bound', 'add_many: rank cap or accumulated error bound violated (tie / edge case)', case=c)
+
+
 def _worker(task):
     case, seed, reps = task
     rng = np.random.default_rng(seed)
@@ -97,3 +138,17 @@ def run(ctx):
         tasks = [(cases[j], int(ctx.seed * 1000003 + j), 1 if ctx.tier == 'quick' else 2) for j in order[:per]]
         common.pmap(ctx, _worker, tasks)
         replay_add_many(ctx, [cases[j] for j in order], rng, 150 if ctx.tier == 'quick' else 1500)
+    # add_many as a behaviour of AddMany.tla: exhaustive small scope + simulated larger scopes
+    from . import tlc
+    quick = ctx.tier == 'quick'
+    res = tlc.run('AddMany', cfg='AddMany_q.cfg', workers=16, timeout=1800)
+    ctx.add_tlc(res, 'AddMany exhaustive (2 entries, 3-4 signed terms): AccumulatedBound, IntermediateBound, RankCap')
+    replay_add_many_model(ctx, res.json, rng, 600 if quick else 6000, 'addmany-q')
+    if not quick:
+        res = tlc.run('AddMany', cfg='AddMany_t.cfg', workers=16, timeout=3000)
+        ctx.add_tlc(res, 'AddMany exhaustive (3 entries, 4 signed terms), invariants only')
+    for cfg in ('AddMany_sim.cfg', 'AddMany_sim4.cfg'):
+        res = tlc.run('AddMany', cfg=cfg, workers=8, timeout=1800, simulate='num=%d' % (400 if quick else 5000), depth=20, seed=ctx.seed + 3)
+        ctx.add_tlc(res, 'AddMany simulation %s (up to 4 entries, 4-7 signed terms)' % cfg)
+        rows = list({repr((r_['ent'], r_['terms'], r_['fr'], r_['cap'], r_['ep'])): r_ for r_ in res.json}.values())
+        replay_add_many_model(ctx, rows, rng, len(rows), 'addmany-sim')
